@@ -274,8 +274,8 @@ func main() {
 	c.Meta.Extra = map[string]interface{}{"assumptions": []string{
 		"int32 domain counters are modelled in Z without wrap-around (2^31 pods per domain are out of reach)",
 		"one method call = one step; goroutine interleavings inside parallelizeUntil cannot be exhibited by the model (Solve is run with 1 and 4 workers)",
-		"the global statement (every Solve run ends in a state satisfying interpod_ok) is checked by the oracle on generated clusters, not proved; proved are the per-constraint invariants for all admit/commit traces",
-		"final-state spread oracle: applied when every new pod a constraint counts carries the same constraint and node eligibility is decided; existential over the last carrier per domain",
+		"proved: per-group invariants for all op sequences and Topology-level end-state theorems for all admit/update/register traces (group identity structural, selects()/nodeFilter abstract); the translation of a Kubernetes world into that abstract state is checked by the oracle on the real Solve, not proved",
+		"final-state spread oracle: existential over the last carrier per domain, each candidate judged in its OWN node-eligibility view; new pods that match but do not carry the constraint are left out of the count of that domain; a carrier whose eligibility view is undecided in the end state is accepted as witness",
 		"pods placed on an existing node that lacks the topology label are in no domain and are not judged (counted as observation buckets)",
 		"cluster-level default topology spread constraints (defaultconstraints.go) are off (no --scheduler-config)",
 	}}
